@@ -10,7 +10,7 @@ from .tlaval import to_tla, norm
 import txdbus.bus
 from txdbus import router, message, objects, interface
 
-ACTIONS = {'Add': ('r',), 'Del': ('id',), 'Route': ('i', 'raising'), 'RouteRemoving': ('i', 'x')}
+ACTIONS = {'Add': ('r',), 'Del': ('id',), 'Route': ('i', 'raising'), 'RouteRemoving': ('i', 'x'), 'RouteAdding': ('i', 'r')}
 OBS = ['invoked']
 NONE = '-'
 NONES = ('NONE',)      # absent key whose values are character sequences (the empty sequence is the empty string)
@@ -144,6 +144,26 @@ class HistDriver:
         self.n = 0
         self.last = {}
 
+    def make_cb(self, mid):
+        def cb(m, mid=mid):
+            self.last[mid] = self.last.get(mid, 0) + 1
+            if getattr(self, 'add_on_hit', None) is not None:
+                # subscribes to something further from inside the dispatch
+                r2, self.add_on_hit = self.add_on_hit, None
+                mid2 = self.n
+                self.n += 1
+                a2, p2 = rule_args(r2)
+                d2 = self.conn.addMatch(self.shared_cb if self.shared else self.make_cb(mid2), arg=a2, arg_path=p2, **rule_kwargs(r2))
+                self.added_inside = (mid2, d2)
+            if self.self_remove == mid:
+                # a one-shot subscriber: drops its own rule from inside the dispatch
+                self.conn.router.delMatch(self.ids[mid])
+                self.conn.match_rules.pop(self.ids[mid], None)
+                del self.ids[mid]
+            if self.raising:
+                raise RuntimeError('callback %d raises' % mid)
+        return cb
+
     def _reply(self):
         calls = fakes.parse_all(self.t.take())
         assert len(calls) == 1, calls
@@ -159,15 +179,7 @@ class HistDriver:
             mid = self.n
             self.n += 1
 
-            def cb(m, mid=mid):
-                self.last[mid] = self.last.get(mid, 0) + 1
-                if self.self_remove == mid:
-                    # a one-shot subscriber: drops its own rule from inside the dispatch
-                    self.conn.router.delMatch(self.ids[mid])
-                    self.conn.match_rules.pop(self.ids[mid], None)
-                    del self.ids[mid]
-                if self.raising:
-                    raise RuntimeError('callback %d raises' % mid)
+            cb = self.make_cb(mid)
             a, p = rule_args(r)
             d = self.conn.addMatch(self.shared_cb if self.shared else cb, arg=a, arg_path=p, **rule_kwargs(r))
             got = []
@@ -181,6 +193,21 @@ class HistDriver:
             call = self._reply()
             assert call.member == 'RemoveMatch'
             del self.ids[mid]
+        elif name == 'RouteAdding':
+            i, r2 = args
+            self.add_on_hit = r2
+            self.added_inside = None
+            try:
+                self.conn.dataReceived(self.raw[i - 1])
+            finally:
+                self.add_on_hit = None
+            if self.added_inside:
+                mid2, d2 = self.added_inside
+                got = []
+                d2.addCallback(got.append)
+                call = self._reply()
+                assert call.member == 'AddMatch'
+                self.ids[mid2] = got[0]
         elif name == 'RouteRemoving':
             i, x = args
             self.self_remove = x
@@ -352,7 +379,7 @@ def run(tier, seed):
         d = HistDriver(None, None, shared=True)
         d.raw = hraw
         return d
-    sp = [p for p in paths if not any(lab[0] == 'RouteRemoving' for lab in p.labs)]
+    sp = [p for p in paths if not any(lab[0] in ('RouteRemoving', 'RouteAdding') for lab in p.labs)]
     core.replay_paths(chk, g, sp[:1500 if not thorough else 20000], mk_shared, 'hist-shared-callable', 'c12', {'shared': True},
                       state_map=lambda st: {'ninvoked': len(st['invoked'])})
     # ---- code -> spec: random rules over a larger value space (recorded match sets judged by TLC)
